@@ -692,14 +692,35 @@ class G:
             return {"k": "sfield", "id": self.nid("sf"), "st": s, "n": n, "isz": isz}, vals, n * isz
         if k == "dlfield":
             item_static = self.chance(70)
-            s, _, size = self.struct(0, item_static, False)
+            if not item_static and self.chance(50):
+                # items ending in a terminated MIN-MAX value: the terminator of every item but the very last one
+                # of a field at the end of the PDU must be present
+                lead = {"k": "simple", "id": self.nid("dop"),
+                        "dct": {"t": "std", "bt": "A_UINT32", "bl": 8, "enc": None, "hl": None},
+                        "compu": {"c": "IDENTICAL"}, "pt": "A_UINT32"}
+                bt = self.pick(["A_BYTEFIELD", "A_ASCIISTRING", "A_UNICODE2STRING"])
+                unit = 2 if bt == "A_UNICODE2STRING" else 1
+                mdct = {"t": "minmax", "bt": bt, "min": 0, "max": self.pick([None, None, 4 * unit]),
+                        "term": self.pick(["ZERO", "HEX-FF"]), "enc": None, "hl": self.pick([None, False])}
+                mdop = {"k": "simple", "id": self.nid("dop"), "dct": mdct, "compu": {"c": "IDENTICAL"},
+                        "pt": "A_BYTEFIELD" if bt == "A_BYTEFIELD" else "A_UNICODE2STRING"}
+                s = {"k": "struct", "id": self.nid("st"), "bs": None, "params": [
+                    {"pk": "value", "name": self.nid("p"), "pos": 0, "bit": 0, "dop": lead, "default": None},
+                    {"pk": "value", "name": self.nid("p"), "pos": None, "bit": 0, "dop": mdop, "default": None}]}
+                size = None
+                self.features.add("dlfield-terminated-items")
+                self.features.add("dct:minmax")
+                self.features.add("struct")
+            else:
+                s, _, size = self.struct(0, item_static, False)
             cbits = self.pick([8, 8, 16, 4])
             cdop = {"k": "simple", "id": self.nid("dop"),
                     "dct": {"t": "std", "bt": "A_UINT32", "bl": cbits, "enc": None, "hl": self.pick([None, False])},
                     "compu": {"c": "IDENTICAL"}, "pt": "A_UINT32"}
             cbit = self.d(st.integers(0, 4)) if cbits == 4 else 0
             off = (cbit + cbits + 7) // 8 + self.pick([0, 0, 1])
-            n = self.d(st.integers(0, 3))
+            n = self.d(st.integers(2, 3)) if "dlfield-terminated-items" in self.features and self.chance(70) \
+                else self.d(st.integers(0, 3))
             vals = [self.values_for_struct(s) for _ in range(n)]
             self.features.add("dlfield")
             if n >= 2:
